@@ -174,7 +174,7 @@ func TestC17_Mgrx(t *testing.T) {
 			case "complete":
 				_ = ev.OnChannelCompleted(c.chid, nil)
 			case "cancel":
-				_ = r.mgr.CloseDataTransferChannel(bg(), c.chid)
+				_ = r.closeCh(c.chid)
 			case "restart-event":
 				m, _ := message.RestartResponse(c.chid.ID, true, false, nil)
 				if c.selfInit() {
